@@ -585,7 +585,7 @@ def c06(ctx):
     n = 240 if ctx.quick() else 6000
     sv(binary, ["c14n", "--mode", "toy", "--n", n, "--seed", ctx.seed, "--out", tr], ctx=ctx)
     trace = read_trace(tr)
-    jobs = [Bg(lambda sd=sd: trace_check(ctx, "Trace_Rdfc10", tr, timeout=6000, tag="Trace_Rdfc10_s%d" % sd, cfg="Trace_Rdfc10_s%d" % sd)) for sd in (0, 1, 2)]
+    jobs = [Bg(lambda sd=sd: trace_check(ctx, "Trace_Rdfc10", tr, timeout=6000, tag="Trace_Rdfc10_%s" % sd, cfg="Trace_Rdfc10_%s" % sd)) for sd in ("s0", "s1", "s2", "w0")]
     mism = []
     for j in jobs:
         mism += j.join()
@@ -609,7 +609,7 @@ def c06(ctx):
     ctx.samples += [{"d": show_quads(e["d"]), "seed": e["seed"], "canonical": uncps(e["res"]["text"])} for e in trace[5:7] if e["ev"] == "Toy"]
     mc.join()
     ctx.rule = ("Rdfc10.tla transcribes W3C RDFC-1.0 sections 4.4-4.8 step by step, parameterised by a computable toy hash (four 15-bit polynomial hashes) that is also plugged into the real normalize_with/relabel_with through the public HashFunction trait. "
-                "MC_Rdfc10: the transcription is label- and order-independent on 11 symmetric structures and step 5.2.1 is an optimisation only. %d datasets (same families as C05) x toy-hash seed in {0,1,2} (permutes the order of hash values) x "
+                "MC_Rdfc10: the transcription is label- and order-independent on 11 symmetric structures and step 5.2.1 is an optimisation only. %d datasets (same families as C05) x toy hash (seed 0, 1, 2: permutes the order of hash values; a 48-byte variant, as wide as SHA-384's digest) x "
                 "(depth factor, permutation limit) in {default, 0.5, 2.0} x {1, 2, 6}: TLC recomputes the canonical document and requires byte equality and the same identifier map; where the W3C text leaves a choice (a tie at 5.3 or 5.4.6) "
                 "the document and the map must each be one of the outcomes the text allows (Rdfc10!OutcomeCanons, the set-valued reading of the algorithm); 'unsupported' for unsupported input, "
                 "and ToxicGraph only when a limit is exceeded in the specification's own run. distinct = (dataset, seed, limits)" % n)
